@@ -351,6 +351,9 @@ def main(argv=None):
     }
     os.makedirs(EVID, exist_ok=True)
     path = os.path.join(EVID, pid + ".json")
+    if a.only or a.limit:                 # partial runs never overwrite the evidence of a full run
+        os.makedirs(os.path.join(EVID, "tmp"), exist_ok=True)
+        path = os.path.join(EVID, "tmp", pid + ".partial.json")
     txt = json.dumps(ev, indent=1, default=_jsonable, sort_keys=False)
     open(path, "w").write(txt + "\n")
     try:
